@@ -1187,3 +1187,34 @@ B('h4_app_keeps_callers_list_named', ['C19'], 'R19.d', (APP, _APP_MWS, "        
 T('h4_app_copies_list_conditionally', ['C19'], (APP, _APP_MWS, "        self.middlewares = list(middlewares) if middlewares else []\n"))
 T('h4_app_copies_list_by_slice', ['C19'], (APP, _APP_MWS, "        self.middlewares = (middlewares or [])[:]\n"))
 T('h4_app_copies_list_by_comprehension', ['C19'], (APP, _APP_MWS, "        given = middlewares or []\n        self.middlewares = [mw for mw in given]\n"))
+
+# ------------------------------------------------------------------------------------------------ round 4: more of C19 / C15
+_ST_REPORT_COMP = "in rt_hits.items() if rh]),"
+# counting starts from zero: the installed table is empty
+B('h4_reset_carries_old_counts_over', ['C19'], 'R19.b',
+  (STATS, _ST_RESET_TABLE, "        old = getattr(self, 'route_hits', {})\n" + _ST_RESET_TABLE + "        self.route_hits.update(old)\n"))
+B('h4_reset_builds_table_from_old', ['C19'], 'R19.b',
+  (STATS, _ST_RESET_TABLE, "        old = getattr(self, 'route_hits', {})\n        self.route_hits = defaultdict(lambda: defaultdict(RouteStatReservoir), old)\n"))
+T('h4_reset_table_named', ['C19'], (STATS, _ST_RESET_TABLE, "        table = defaultdict(lambda: defaultdict(RouteStatReservoir))\n        self.route_hits = table\n"))
+# the cell exists when the hit is filed
+B('h4_table_plain_dict', ['C19'], 'R19.a', (STATS, _ST_RESET_TABLE, "        self.route_hits = {}\n"))
+B('h4_table_one_level_only', ['C19'], 'R19.a', (STATS, _ST_RESET_TABLE, "        self.route_hits = defaultdict(dict)\n"))
+# the report covers the table
+B('h4_report_keeps_the_empty_routes', ['C19'], 'R19.b', (STATS, _ST_REPORT_COMP, "in rt_hits.items() if not rh]),"))
+B('h4_report_first_route_only', ['C19'], 'R19.b', (STATS, _ST_REPORT_COMP, "in list(rt_hits.items())[:1] if rh]),"))
+B('h4_report_leaves_out_a_route', ['C19'], 'R19.b', (STATS, _ST_REPORT_COMP, "in rt_hits.items() if rt.pattern != '/']),"))
+B('h4_summary_skips_server_errors', ['C19'], 'R19.b',
+  (STATS, "        ret[status] = cur = {}\n", "        if status.startswith('5'):\n            continue\n        ret[status] = cur = {}\n"))
+B('h4_summary_stops_after_first_status', ['C19'], 'R19.b', (STATS, "        cur.update(desc_dict)\n", "        cur.update(desc_dict)\n        break\n"))
+T('h4_report_sorted_routes', ['C19'], (STATS, _ST_REPORT_COMP, "in sorted(rt_hits.items(), key=lambda kv: kv[0].pattern) if rh]),"))
+T('h4_summary_skips_empty', ['C19'],
+  (STATS, "        ret[status] = cur = {}\n", "        if not hits:\n            continue\n        ret[status] = cur = {}\n"))
+# render context: several keys at once
+B('h4_ctx_update_with_defaults', ['C15'], 'R15.h',
+  (CTX, "            desired_args = self.required + list(self.defaults.keys())\n", "            context.update(self.defaults)\n            desired_args = self.required + list(self.defaults.keys())\n"))
+T('h4_ctx_update_unset_only', ['C15'],
+  (CTX, "            desired_args = self.required + list(self.defaults.keys())\n",
+        "            context.update((k, v) for k, v in () if k not in context)\n            desired_args = self.required + list(self.defaults.keys())\n"))
+T('h4_ctx_update_under_switch', ['C15'],
+  (CTX, "            desired_args = self.required + list(self.defaults.keys())\n",
+        "            if self.overwrite:\n                context.update({})\n            desired_args = self.required + list(self.defaults.keys())\n"))
